@@ -621,6 +621,37 @@ class Rig:
         self.counts["deliveries"] += 1
         return keys
 
+    def deliver_torn_begin(self, folder, msgs, unseen):
+        """First half of a delivery by an agent that is caught in the middle of
+        rewriting .mh_sequences: the message files are there, the sequences file
+        is a prefix of what it is going to be, cut inside a range ("unseen: 1-3 4-").
+        Returns what deliver_torn_end() needs."""
+        path = self.maildir / folder
+        mh = mailbox.MH(str(path), create=False)
+        seqs = mh.get_sequences()
+        keys = [int(mh.add(m)) for m in msgs]
+        cur = set(seqs.get("unseen", []))
+        for k, f in zip(keys, unseen):
+            if f:
+                cur.add(k)
+        seqs["unseen"] = sorted(cur)
+        seqf = path / ".mh_sequences"
+        old = seqf.read_bytes() if seqf.exists() else b""
+        mh.set_sequences(seqs)
+        full = seqf.read_bytes()
+        cut = full.rfind(b"-")
+        torn = full[: cut + 1] if cut >= 0 else full.rstrip(b"\n") + b"-"
+        seqf.write_bytes(torn)
+        self.bump_mtime(folder)
+        self.counts["torn_deliveries"] += 1
+        return (folder, full)
+
+    def deliver_torn_end(self, st):
+        folder, full = st
+        (self.maildir / folder / ".mh_sequences").write_bytes(full)
+        self.bump_mtime(folder)
+        self.counts["deliveries"] += 1
+
     def deliver_raw(self, folder, raw):
         """Write the octets verbatim as the next message file (no line-ending
         normalisation by the mailbox module)."""
